@@ -176,6 +176,7 @@ static void run_one(const block_t *b, const uint8_t *inset, uint64_t maskdesc, i
 	if (g_pf.roles) hi.roles = (int)((h >> 23) % 4 == 0 ? 1 + ((h >> 29) % 3) : 0);
 	else hi.roles = (int)((h >> 23) % 16 == 0 ? 1 + ((h >> 29) % 3) : 0);      /* an encoder+decoder instance now and then */
 	hi.dupcopy = 1;
+	g_session_preprobe = (h >> 51) % 5 == 0;
 	hi.reenter = hi.cbmode && (h >> 43) % 4 == 0;
 	int order = hi.api == 1 ? 0 : (int)((h >> 31) % (g_pf.dups ? 5 : 4));
 	hi.nsub = make_sequence(inset, n, k, order, r);
@@ -189,6 +190,7 @@ static void run_one(const block_t *b, const uint8_t *inset, uint64_t maskdesc, i
 		      codec_name(c), c->k, c->r, c->L, c->N1, c->seed, hi.api, hi.finish, hi.cbmode, hi.roles, hi.stop, order, hi.nsub, ms)) return;
 	hres_t res;
 	run_history(b, &hi, g_pf.mon, &res);
+	g_session_preprobe = 0;
 	int nontrivial;
 	switch (g_run.prop[2]) {
 	case '1': nontrivial = g_run.prop[1] == '0' ? (res.decoded_it + res.decoded_fin) > 0 : res.callbacks > 0; break;          /* C01 / C11 */
@@ -294,7 +296,9 @@ int p_codec(void)
 				const char *sv = g_prop; g_prop = ""; int rc0 = block_build(&b, &c, payload, &r, 0, -1); g_prop = sv;
 				if (rc0) { block_free(&b); continue; }
 			} else {
+				g_session_preprobe = (ci + lv + sp) % 3 == 0;
 				int rc0 = block_build(&b, &c, payload, &r, nullmask, -1);
+				g_session_preprobe = 0;
 				rep_case_done(1, 0, 1);
 				if (rc0 > 0) { rep_viol("encoder-rejects-valid-config", "codec=%s k=%u r=%u N1=%u seed=%u", codec_name(&c), c.k, c.r, c.N1, c.seed); block_free(&b); continue; }
 				if (rc0 < 0) { block_free(&b); continue; }
